@@ -83,6 +83,9 @@ PLAIN = ("int", "float", "str", "bool")
 STR_VOCAB = ["a", "b", "ab", "abc", "c", "A", "B", "ba", "b c", "aa"]
 WIDE_VOCAB = ["é", "日本", "zü"]  # beyond ASCII / beyond Latin-1
 FLOATS = [0.5, 1.25, -3.75, 1e-05, 2.0, 100.125, 0.1, 1 / 3, 1e-20, 1e20, 123456.789, -0.25]
+# floats whose text starts with a letter / has an exponent / a sign / looks like an int; nan and the infinities
+# are kept as their repr in the JSON-able description (see decode_floats) because JSON has no literal for them
+SPECIAL_FLOATS = ["nan", "inf", "-inf", 1e300, -1e300, -0.0, 5e-324, 1e-310, 2.0, -7.0, 1e16, 0.0]
 HOSTILE_WORDS = ['"hi"', "'s'", "a,b", 'say "x"', 'x,"y"', "", "", "it's", " pad ", "tab\there", "new\nline", "a;b", "p|q", '"', "csv", "None", "x y"]
 HOSTILE_ALPHA = ["a", "b", "X", "Y", " ", ",", "\t", ";", "|", '"', "'", "\n"]
 
@@ -167,7 +170,32 @@ def gen_spec(rng, purpose, maxrows=8, prefix="c"):
         col = [r_[0] for r_ in rows]
         if len(set(col)) == len(col):
             spec["index"] = header[0]
+    if purpose == "roundtrip" and nrow:
+        for j, t in enumerate(types):
+            if t != "float" or spec["index"] == header[j] or rng.random() < 0.45:
+                continue
+            for i in range(nrow):
+                if rng.random() < 0.35:
+                    rows[i][j] = rng.choice(SPECIAL_FLOATS)
+            if rng.random() < 0.7:
+                # the first data row decides what a reader that looks at one row believes about the column
+                rows[0][j] = rng.choice(SPECIAL_FLOATS[:3] if rng.random() < 0.6 else SPECIAL_FLOATS)
     return spec
+
+
+def decode_floats(spec):
+    """the description with 'nan' / 'inf' / '-inf' in float columns turned into floats"""
+    fl = [j for j, t in enumerate(spec["types"]) if t == "float"]
+    if not fl:
+        return spec
+    rows = []
+    for r in spec["rows"]:
+        r = list(r)
+        for j in fl:
+            if isinstance(r[j], str):
+                r[j] = float(r[j])
+        rows.append(r)
+    return {**spec, "rows": rows}
 
 
 # ---------------------------------------------------------------------------
@@ -383,6 +411,7 @@ JOIN_INDEX_KEY = "joined/inner/index-column-not-first-key"
 JOIN_INDEX_DUP = "joined/inner/inherited-index-duplicated"
 TRANSPOSE_INDEX = "transposed/indexed-table-select-non-index"
 GETCOL_STR_INDEX = "get_columns/str-arg-with-index"
+JOIN_NATURAL_ORDER = "joined/natural/shared-columns-in-different-order"
 
 
 def tclass(t):
@@ -971,8 +1000,10 @@ class Chain:
         if not cands:
             return None
         k = 1 if len(cands) == 1 or rng.random() < 0.6 else 2
-        keys = rng.sample(cands, k)
         how = rng.choice(["explicit", "explicit", "natural"])
+        if how == "natural" and len(cands) > 1 and rng.random() < 0.5:
+            k = 2  # two or more shared columns, often in a different order in the other table
+        keys = rng.sample(cands, k)
         if how == "natural":
             other, knames = self._gen_other(keys, same_names=True, collide=False)
             prefix = rng.choice([None, "R_"])
@@ -1006,10 +1037,15 @@ class Chain:
         o = op["other"]
         om = Model(o["header"], o["types"], o["rows"])
         prefix = op["prefix"] if op["prefix"] is not None else "right_"
+        natural_reordered = False
         if op["how"] == "natural":
+            # a natural join pairs the shared columns by NAME, wherever they sit in either table
             shared = set(m.header) & set(om.header)
             cs = [c for c in m.header if c in shared]
-            co = [c for c in om.header if c in shared]
+            co = list(cs)
+            natural_reordered = [c for c in om.header if c in shared] != cs
+            if natural_reordered:
+                self.res.count("join:natural-shared-columns-in-different-order")
         else:
             cs = [op["cs"]] if isinstance(op["cs"], str) else list(op["cs"])
             co = [op["co"]] if isinstance(op["co"], str) else list(op["co"])
@@ -1045,7 +1081,9 @@ class Chain:
             return False
         index_dup = bool(m.index) and len({norm(r[m.col(m.index)]) for r in exp}) < len(exp)
         cls, exact = f"joined/{op['how']}", False
-        if m.index in cs and cs[0] != m.index:
+        if natural_reordered:
+            cls, exact = JOIN_NATURAL_ORDER, True
+        elif m.index in cs and cs[0] != m.index:
             cls, exact = JOIN_INDEX_KEY, True
         elif index_dup:
             cls, exact = JOIN_INDEX_DUP, True
@@ -1284,9 +1322,13 @@ VARIANTS_QUICK = [
     ("tsv+sep=,", "n.tsv", {"sep": ","}, {"sep": ","}),
     ("csv.gz+delimiter=|", "m.csv.gz", {"sep": "|"}, {"delimiter": "|"}),
     ("tsv.gz+sep=;", "m.tsv.gz", {"sep": ";"}, {"sep": ";"}),
+    # column types decided from the first data row only (documented option of load_table)
+    ("static:tsv", "s.tsv", {}, {"static_column_types": True}),
+    ("static:csv.gz", "s.csv.gz", {}, {"static_column_types": True}),
 ]
 SEP_OF = {
     "tsv": "\t", "csv": ",", "tsv.gz": "\t", "csv.gz": ",", "compress=True": "\t", "sep=;": ";", "sep=|": "|", "sep=space": " ",
+    "static:tsv": "\t", "static:csv.gz": ",",
     "csv+sep=tab": "\t", "tsv+delimiter=;": ";", "tsv+sep=,": ",", "csv.gz+delimiter=|": "|", "tsv.gz+sep=;": ";",
 }
 
@@ -1302,6 +1344,7 @@ def family(variant):
 def run_roundtrip(res, spec, only=None, workdir=None):
     from cogent3 import load_table
 
+    spec = decode_floats(spec)  # (witness details turn nan / inf back into their repr)
     replay = {"kind": "roundtrip-one", "table": spec}
     try:
         t = make_real(spec)
@@ -1318,6 +1361,15 @@ def run_roundtrip(res, spec, only=None, workdir=None):
     types = [spec["types"][i] for i in order]
     n = len(rows)
     dup = len(set(nrows(rows))) < n
+    for j, ty in enumerate(types):
+        if ty == "float" and n:
+            v = rows[0][j]
+            if v != v or v in (float("inf"), float("-inf")):
+                res.count("rt:float-column-nan-or-inf-in-first-row")
+            if any(r[j] != r[j] or r[j] in (float("inf"), float("-inf")) for r in rows[1:]):
+                res.count("rt:float-column-nan-or-inf-in-later-row")
+            if any(r[j] in (1e300, -1e300, 5e-324, 1e-310, 1e16) or (r[j] == 0 and str(r[j]) == "-0.0") for r in rows):
+                res.count("rt:float-column-extreme-or-negative-zero")
     own = workdir is None
     if own:
         workdir = pathlib.Path(tempfile.mkdtemp(prefix="c20-", dir=os.getcwd()))
@@ -1456,8 +1508,14 @@ def _one_variant(res, spec, t, variant, path, wkw, lkw, header, rows, types, dup
                 res.evals += 1
                 res.count("rt:numeric-column-checked")
                 kind = g.columns[c].dtype.kind
-                if kind not in "iuf":
-                    witness(f"numeric-not-restored/{ty}", column=c, dtype=str(g.columns[c].dtype))
+                got_col = [pyval(r[ci]) for r in grows]
+                exp_col = [r[ci] for r in rows]
+                first = exp_col[0]
+                cls = ty + ("/first-cell-nan-or-inf" if ty == "float" and (first != first or first in (float("inf"), float("-inf"))) else "")
+                if kind not in "iuf" or any(isinstance(v, (str, bool)) or not isinstance(v, (int, float)) for v in got_col):
+                    witness(f"numeric-not-restored/{cls}", column=c, dtype=str(g.columns[c].dtype), got=got_col[:6])
+                elif any(not ((a != a and b != b) or (a == b and repr(float(a)) == repr(float(b)))) for a, b in zip(got_col, exp_col)):
+                    witness(f"numeric-value-changed/{cls}", column=c, got=got_col[:6], expected=exp_col[:6])
     if not (bad or evaluated or cr) and n >= 2 and (hostile or dup):
         res.sig("rt", variant, tuple(sorted(set(types))), dup, tuple(hostile))
 
@@ -1924,6 +1982,12 @@ REQUIRED = [
     "rt:tsv+sep=,",
     "rt:csv.gz+delimiter=|",
     "rt:tsv.gz+sep=;",
+    "rt:static:tsv",
+    "rt:static:csv.gz",
+    "rt:float-column-nan-or-inf-in-first-row",
+    "rt:float-column-nan-or-inf-in-later-row",
+    "rt:float-column-extreme-or-negative-zero",
+    "join:natural-shared-columns-in-different-order",
     "live-op:set-index",
     "live-op:clear-index",
     "live-op:add-column",
